@@ -299,6 +299,228 @@ package gogen
 //@ ensures imp(old(p.old.label) == nil && old(p.old2.label) == nil && old(cb.current.label) == nil && old(p.body) != nil && old(len(cb.current.stmts)) == 1 && typeis(old(cb.current.stmts[0]), *ast.IfStmt), LastStmt(cb).(*ast.IfStmt).Else == old(cb.current.stmts[0]))
 
 // ---------------------------------------------------------------------------
+// C02 — switch / select / type switch / for: the parts collected by the construct land in the fields Go's syntax
+// assigns them, the clauses keep their order, and the statement is appended to the enclosing block exactly once
+
+//@ func checkParenExpr
+//@ prop C02
+//@ assigns all(ast.SelectorExpr.X)
+//@ ensures ParenWrap(x, result)
+//@ ensures imp(typeis(x, *ast.SelectorExpr), ParenWrap(old(x.(*ast.SelectorExpr).X), x.(*ast.SelectorExpr).X))
+
+//@ func emitSWitchStmt
+//@ prop C02
+//@ requires cb != nil && cb.pkg != nil && p != nil && p.tag != nil
+//@ assigns cb.comments, cb.current.label, cb.current.label.Stmt, cb.current.stmts, elems(cb.current.stmts), cb.pkg.commentedStmts, map(cb.pkg.commentedStmts), all(ast.SelectorExpr.X)
+//@ ensures Appended1(cb)
+//@ ensures imp(old(cb.current.label) == nil, typeis(LastStmt(cb), *ast.SwitchStmt) && LastStmt(cb).(*ast.SwitchStmt).Init == p.init && ParenWrap(old(p.tag.Val), LastStmt(cb).(*ast.SwitchStmt).Tag) && LastStmt(cb).(*ast.SwitchStmt).Body != nil && LastStmt(cb).(*ast.SwitchStmt).Body.List == stmts)
+
+//@ func emitCaseClause
+//@ prop C02
+//@ requires cb != nil && cb.pkg != nil && p != nil
+//@ assigns cb.comments, cb.current.label, cb.current.label.Stmt, cb.current.stmts, elems(cb.current.stmts), cb.pkg.commentedStmts, map(cb.pkg.commentedStmts)
+//@ ensures Appended1(cb)
+//@ ensures imp(old(cb.current.label) == nil, typeis(LastStmt(cb), *ast.CaseClause) && LastStmt(cb).(*ast.CaseClause).List == p.list && LastStmt(cb).(*ast.CaseClause).Body == body)
+
+//@ func emitTypeCaseClause
+//@ prop C02
+//@ requires cb != nil && cb.pkg != nil && p != nil
+//@ assigns cb.comments, cb.current.label, cb.current.label.Stmt, cb.current.stmts, elems(cb.current.stmts), cb.pkg.commentedStmts, map(cb.pkg.commentedStmts)
+//@ ensures Appended1(cb)
+//@ ensures imp(old(cb.current.label) == nil, typeis(LastStmt(cb), *ast.CaseClause) && LastStmt(cb).(*ast.CaseClause).List == p.list && LastStmt(cb).(*ast.CaseClause).Body == body)
+
+//@ func emitSelectStmt
+//@ prop C02
+//@ requires cb != nil && cb.pkg != nil
+//@ assigns cb.comments, cb.current.label, cb.current.label.Stmt, cb.current.stmts, elems(cb.current.stmts), cb.pkg.commentedStmts, map(cb.pkg.commentedStmts)
+//@ ensures Appended1(cb)
+//@ ensures imp(old(cb.current.label) == nil, typeis(LastStmt(cb), *ast.SelectStmt) && LastStmt(cb).(*ast.SelectStmt).Body != nil && LastStmt(cb).(*ast.SelectStmt).Body.List == stmts)
+
+//@ func emitCommClause
+//@ prop C02
+//@ requires cb != nil && cb.pkg != nil && p != nil
+//@ assigns cb.comments, cb.current.label, cb.current.label.Stmt, cb.current.stmts, elems(cb.current.stmts), cb.pkg.commentedStmts, map(cb.pkg.commentedStmts)
+//@ ensures Appended1(cb)
+//@ ensures imp(old(cb.current.label) == nil, typeis(LastStmt(cb), *ast.CommClause) && LastStmt(cb).(*ast.CommClause).Comm == p.comm && LastStmt(cb).(*ast.CommClause).Body == body)
+
+//@ func emitTypeSwitchStmt
+//@ prop C02
+//@ requires cb != nil && cb.pkg != nil && p != nil
+//@ assigns cb.comments, cb.current.label, cb.current.label.Stmt, cb.current.stmts, elems(cb.current.stmts), cb.pkg.commentedStmts, map(cb.pkg.commentedStmts)
+//@ ensures Appended1(cb)
+//@ ensures imp(old(cb.current.label) == nil, typeis(LastStmt(cb), *ast.TypeSwitchStmt) && LastStmt(cb).(*ast.TypeSwitchStmt).Init == p.init && LastStmt(cb).(*ast.TypeSwitchStmt).Body != nil && LastStmt(cb).(*ast.TypeSwitchStmt).Body.List == stmts)
+//@ ensures imp(old(cb.current.label) == nil && p.name == "", typeis(LastStmt(cb).(*ast.TypeSwitchStmt).Assign, *ast.ExprStmt) && typeis(LastStmt(cb).(*ast.TypeSwitchStmt).Assign.(*ast.ExprStmt).X, *ast.TypeAssertExpr) && LastStmt(cb).(*ast.TypeSwitchStmt).Assign.(*ast.ExprStmt).X.(*ast.TypeAssertExpr).X == p.x && LastStmt(cb).(*ast.TypeSwitchStmt).Assign.(*ast.ExprStmt).X.(*ast.TypeAssertExpr).Type == nil)
+//@ ensures imp(old(cb.current.label) == nil && p.name != "", typeis(LastStmt(cb).(*ast.TypeSwitchStmt).Assign, *ast.AssignStmt) && TypeSwitchGuard(LastStmt(cb).(*ast.TypeSwitchStmt).Assign.(*ast.AssignStmt), p.name, p.x))
+
+//@ func emitFullthrough
+//@ prop C02
+//@ requires cb != nil && cb.pkg != nil
+//@ assigns cb.comments, cb.current.label, cb.current.label.Stmt, cb.current.stmts, elems(cb.current.stmts), cb.pkg.commentedStmts, map(cb.pkg.commentedStmts)
+//@ ensures Appended1(cb)
+//@ ensures imp(old(cb.current.label) == nil, typeis(LastStmt(cb), *ast.BranchStmt) && LastStmt(cb).(*ast.BranchStmt).Tok == token.FALLTHROUGH && LastStmt(cb).(*ast.BranchStmt).Label == nil)
+
+//@ func emitReturnStmt
+//@ prop C02
+//@ requires cb != nil && cb.pkg != nil
+//@ assigns cb.comments, cb.current.label, cb.current.label.Stmt, cb.current.stmts, elems(cb.current.stmts), cb.pkg.commentedStmts, map(cb.pkg.commentedStmts)
+//@ ensures Appended1(cb)
+//@ ensures imp(old(cb.current.label) == nil, typeis(LastStmt(cb), *ast.ReturnStmt) && LastStmt(cb).(*ast.ReturnStmt).Results == rets)
+
+//@ func emitSendStmt
+//@ prop C02
+//@ requires cb != nil && cb.pkg != nil
+//@ assigns cb.comments, cb.current.label, cb.current.label.Stmt, cb.current.stmts, elems(cb.current.stmts), cb.pkg.commentedStmts, map(cb.pkg.commentedStmts)
+//@ ensures Appended1(cb)
+//@ ensures imp(old(cb.current.label) == nil, typeis(LastStmt(cb), *ast.SendStmt) && LastStmt(cb).(*ast.SendStmt).Chan == ch && LastStmt(cb).(*ast.SendStmt).Value == val)
+
+//@ func emitGoStmt
+//@ prop C02
+//@ requires cb != nil && cb.pkg != nil
+//@ assigns cb.comments, cb.current.label, cb.current.label.Stmt, cb.current.stmts, elems(cb.current.stmts), cb.pkg.commentedStmts, map(cb.pkg.commentedStmts)
+//@ ensures Appended1(cb)
+//@ ensures imp(old(cb.current.label) == nil, typeis(LastStmt(cb), *ast.GoStmt) && LastStmt(cb).(*ast.GoStmt).Call == call)
+
+//@ func emitDeferStmt
+//@ prop C02
+//@ requires cb != nil && cb.pkg != nil
+//@ assigns cb.comments, cb.current.label, cb.current.label.Stmt, cb.current.stmts, elems(cb.current.stmts), cb.pkg.commentedStmts, map(cb.pkg.commentedStmts)
+//@ ensures Appended1(cb)
+//@ ensures imp(old(cb.current.label) == nil, typeis(LastStmt(cb), *ast.DeferStmt) && LastStmt(cb).(*ast.DeferStmt).Call == call)
+
+//@ func emitAssignStmt
+//@ prop C02
+//@ requires cb != nil && cb.pkg != nil
+//@ assigns cb.comments, cb.current.label, cb.current.label.Stmt, cb.current.stmts, elems(cb.current.stmts), cb.pkg.commentedStmts, map(cb.pkg.commentedStmts)
+//@ ensures Appended1(cb)
+//@ ensures imp(old(cb.current.label) == nil, LastStmt(cb) == asI(stmt, ast.Stmt))
+
+//@ func emitTypeDeclStmt
+//@ prop C02
+//@ requires cb != nil && cb.pkg != nil
+//@ assigns cb.comments, cb.current.label, cb.current.label.Stmt, cb.current.stmts, elems(cb.current.stmts), cb.pkg.commentedStmts, map(cb.pkg.commentedStmts)
+//@ ensures Appended1(cb)
+//@ ensures imp(old(cb.current.label) == nil, typeis(LastStmt(cb), *ast.DeclStmt) && LastStmt(cb).(*ast.DeclStmt).Decl == asI(decl, ast.Decl))
+
+// the statement list of a body gets stmt in front and keeps every other statement in order
+//@ func InsertStmtFront
+//@ prop C02
+//@ requires body != nil
+//@ assigns body.List, elems(body.List)
+//@ ensures len(body.List) == old(len(body.List)) + 1 && body.List[0] == stmt
+//@ ensures forall(i, 0, old(len(body.List)), body.List[i+1] == old(body.List[i]))
+
+// the loop body handler is client code: it is trusted to edit only the statement list of the body it is given
+//@ func (*loopBodyHandler).handleFor
+//@ trusted
+//@ assigns when(p.handle != nil, body.List), when(p.handle != nil, elems(body.List))
+//@ tensures result == body
+
+//@ func (*switchStmt).Then
+//@ prop C02 C16
+//@ requires cb != nil && StkWf(cb) && forall(i, 0, len(cb.stk.data), cb.stk.data[i] != nil)
+//@ ensures old(len(cb.stk.data)) > old(cb.current.base) && len(cb.stk.data) == old(len(cb.stk.data)) - 1
+//@ ensures p.tag == old(cb.stk.data[len(cb.stk.data)-1])
+//@ ensures old(len(cb.current.stmts)) <= 1 && p.init == ite(old(len(cb.current.stmts)) == 1, old(cb.current.stmts[0]), old(p.init))
+//@ ensures cb.current.stmts == nil
+
+//@ func (*switchStmt).End
+//@ prop C02 C16
+//@ requires cb != nil && cb.pkg != nil && StkWf(cb) && addr(p.old) != addr(cb.current.codeBlockCtx)
+//@ requires disjoint(p.old.stmts, cb.current.stmts)
+//@ ensures len(cb.stk.data) == old(cb.current.base)
+//@ ensures CtxIs(cb, old(p.old))
+//@ ensures imp(old(p.tag) == nil, cb.current.stmts == old(p.old.stmts))
+//@ ensures imp(old(p.tag) != nil && old(p.old.label) == nil && old(cb.current.label) == nil, StmtsAre(cb, old(p.old)) && typeis(LastStmt(cb), *ast.SwitchStmt))
+//@ ensures imp(old(p.tag) != nil && old(p.old.label) == nil && old(cb.current.label) == nil, LastStmt(cb).(*ast.SwitchStmt).Init == old(p.init) && ParenWrap(old(p.tag.Val), LastStmt(cb).(*ast.SwitchStmt).Tag) && LastStmt(cb).(*ast.SwitchStmt).Body.List == old(cb.current.stmts))
+
+//@ func (*caseStmt).End
+//@ prop C02 C16
+//@ requires cb != nil && cb.pkg != nil && StkWf(cb) && addr(p.old) != addr(cb.current.codeBlockCtx)
+//@ requires disjoint(p.old.stmts, cb.current.stmts)
+//@ ensures len(cb.stk.data) == old(cb.current.base)
+//@ ensures CtxIs(cb, old(p.old))
+//@ ensures imp(old(p.old.label) == nil && old(cb.current.label) == nil, StmtsAre(cb, old(p.old)) && typeis(LastStmt(cb), *ast.CaseClause))
+//@ ensures imp(old(p.old.label) == nil && old(cb.current.label) == nil, LastStmt(cb).(*ast.CaseClause).List == old(p.list) && LastStmt(cb).(*ast.CaseClause).Body == old(cb.current.stmts))
+
+//@ func (*typeCaseStmt).End
+//@ prop C02 C16
+//@ requires cb != nil && cb.pkg != nil && StkWf(cb) && addr(p.old) != addr(cb.current.codeBlockCtx)
+//@ requires disjoint(p.old.stmts, cb.current.stmts)
+//@ ensures len(cb.stk.data) == old(cb.current.base)
+//@ ensures CtxIs(cb, old(p.old))
+//@ ensures imp(old(p.old.label) == nil && old(cb.current.label) == nil, StmtsAre(cb, old(p.old)) && typeis(LastStmt(cb), *ast.CaseClause))
+//@ ensures imp(old(p.old.label) == nil && old(cb.current.label) == nil, LastStmt(cb).(*ast.CaseClause).List == old(p.list) && LastStmt(cb).(*ast.CaseClause).Body == old(cb.current.stmts))
+
+//@ func (*selectStmt).End
+//@ prop C02 C16
+//@ requires cb != nil && cb.pkg != nil && StkWf(cb) && addr(p.old) != addr(cb.current.codeBlockCtx)
+//@ requires disjoint(p.old.stmts, cb.current.stmts)
+//@ ensures len(cb.stk.data) == old(cb.current.base)
+//@ ensures CtxIs(cb, old(p.old))
+//@ ensures imp(old(p.old.label) == nil && old(cb.current.label) == nil, StmtsAre(cb, old(p.old)) && typeis(LastStmt(cb), *ast.SelectStmt))
+//@ ensures imp(old(p.old.label) == nil && old(cb.current.label) == nil, LastStmt(cb).(*ast.SelectStmt).Body.List == old(cb.current.stmts))
+
+//@ func (*commCase).Then
+//@ prop C02 C16
+//@ requires cb != nil
+//@ ensures old(len(cb.current.stmts)) <= 1 && len(cb.current.stmts) == 0
+//@ ensures p.comm == ite(old(len(cb.current.stmts)) == 1, old(cb.current.stmts[0]), old(p.comm))
+//@ ensures cb.stk.data == old(cb.stk.data)
+
+//@ func (*commCase).End
+//@ prop C02 C16
+//@ requires cb != nil && cb.pkg != nil && StkWf(cb) && addr(p.old) != addr(cb.current.codeBlockCtx)
+//@ requires disjoint(p.old.stmts, cb.current.stmts)
+//@ ensures len(cb.stk.data) == old(cb.current.base)
+//@ ensures CtxIs(cb, old(p.old))
+//@ ensures imp(old(p.old.label) == nil && old(cb.current.label) == nil, StmtsAre(cb, old(p.old)) && typeis(LastStmt(cb), *ast.CommClause))
+//@ ensures imp(old(p.old.label) == nil && old(cb.current.label) == nil, LastStmt(cb).(*ast.CommClause).Comm == old(p.comm) && LastStmt(cb).(*ast.CommClause).Body == old(cb.current.stmts))
+
+//@ func (*typeSwitchStmt).End
+//@ prop C02 C16
+//@ requires cb != nil && cb.pkg != nil && StkWf(cb) && addr(p.old) != addr(cb.current.codeBlockCtx)
+//@ requires disjoint(p.old.stmts, cb.current.stmts)
+//@ ensures len(cb.stk.data) == old(cb.current.base)
+//@ ensures CtxIs(cb, old(p.old))
+//@ ensures imp(old(p.old.label) == nil && old(cb.current.label) == nil, StmtsAre(cb, old(p.old)) && typeis(LastStmt(cb), *ast.TypeSwitchStmt))
+//@ ensures imp(old(p.old.label) == nil && old(cb.current.label) == nil, LastStmt(cb).(*ast.TypeSwitchStmt).Init == old(p.init) && LastStmt(cb).(*ast.TypeSwitchStmt).Body.List == old(cb.current.stmts))
+//@ ensures imp(old(p.old.label) == nil && old(cb.current.label) == nil && old(p.name) != "", typeis(LastStmt(cb).(*ast.TypeSwitchStmt).Assign, *ast.AssignStmt) && TypeSwitchGuard(LastStmt(cb).(*ast.TypeSwitchStmt).Assign.(*ast.AssignStmt), old(p.name), old(p.x)))
+
+//@ func (*forStmt).Then
+//@ prop C02 C16 C01
+//@ requires cb != nil && StkWf(cb) && len(cb.stk.data) >= 1 && cb.stk.data[len(cb.stk.data)-1] != nil
+//@ requires imp(cb.stk.data[len(cb.stk.data)-1].Val != nil, cb.stk.data[len(cb.stk.data)-1].Type != nil)
+//@ requires addr(p.old2) != addr(cb.current.codeBlockCtx)
+//@ requires imp(src != nil, len(src) >= 1 && src[0] != nil)
+//@ ensures len(cb.stk.data) == old(len(cb.stk.data)) - 1
+//@ ensures imp(old(cb.stk.data[len(cb.stk.data)-1].Val) != nil, types.AssignableTo(old(cb.stk.data[len(cb.stk.data)-1].Type), asI(types.Typ[types.Bool], types.Type)) && p.cond == old(cb.stk.data[len(cb.stk.data)-1].Val))
+//@ ensures imp(old(cb.stk.data[len(cb.stk.data)-1].Val) == nil, p.cond == old(p.cond))
+//@ ensures old(len(cb.current.stmts)) <= 1 && p.init == ite(old(len(cb.current.stmts)) == 1, old(cb.current.stmts[0]), old(p.init))
+//@ ensures cb.current.codeBlock == asI(p, codeBlock) && cb.current.base == len(cb.stk.data) && cb.current.stmts == nil
+//@ ensures p.old2.scope == old(cb.current.scope) && p.old2.base == old(cb.current.base) && p.old2.codeBlock == old(cb.current.codeBlock)
+
+//@ func (*forStmt).Post
+//@ prop C02 C16
+//@ requires cb != nil && cb.pkg != nil && StkWf(cb) && addr(p.old2) != addr(cb.current.codeBlockCtx)
+//@ ensures len(cb.stk.data) == old(cb.current.base)
+//@ ensures CtxIs(cb, old(p.old2)) && cb.current.stmts == old(p.old2.stmts)
+//@ ensures p.body != nil && fresh(p.body) && imp(old(cb.current.label) == nil, p.body.List == old(cb.current.stmts))
+
+//@ func (*forStmt).End
+//@ prop C02 C16
+//@ requires cb != nil && cb.pkg != nil && StkWf(cb) && 0 <= p.old2.base && p.old2.base <= cb.current.base
+//@ requires addr(p.old2) != addr(cb.current.codeBlockCtx) && addr(p.old) != addr(cb.current.codeBlockCtx) && addr(p.old) != addr(p.old2)
+//@ requires disjoint(p.old.stmts, cb.current.stmts) && disjoint(p.old.stmts, p.old2.stmts) && disjoint(p.old2.stmts, cb.current.stmts)
+//@ requires imp(p.body != nil, disjoint(p.body.List, p.old.stmts))
+//@ ensures CtxIs(cb, old(p.old))
+//@ ensures imp(old(p.body) != nil, len(cb.stk.data) == old(cb.current.base))
+//@ ensures imp(old(p.body) == nil, len(cb.stk.data) == old(p.old2.base))
+//@ ensures imp(old(p.old.label) == nil && old(p.old2.label) == nil && old(cb.current.label) == nil, StmtsAre(cb, old(p.old)) && typeis(LastStmt(cb), *ast.ForStmt))
+//@ ensures imp(old(p.old.label) == nil && old(p.old2.label) == nil && old(cb.current.label) == nil, LastStmt(cb).(*ast.ForStmt).Init == old(p.init) && LastStmt(cb).(*ast.ForStmt).Cond == old(p.cond))
+//@ ensures imp(old(p.old.label) == nil && old(p.old2.label) == nil && old(cb.current.label) == nil && old(p.body) != nil, old(len(cb.current.stmts)) == 1 && LastStmt(cb).(*ast.ForStmt).Post == old(cb.current.stmts[0]) && LastStmt(cb).(*ast.ForStmt).Body == old(p.body))
+//@ ensures imp(old(p.old.label) == nil && old(p.old2.label) == nil && old(cb.current.label) == nil && old(p.body) == nil, LastStmt(cb).(*ast.ForStmt).Post == nil && LastStmt(cb).(*ast.ForStmt).Body != nil && imp(p.handle == nil, LastStmt(cb).(*ast.ForStmt).Body.List == old(cb.current.stmts)))
+
+// ---------------------------------------------------------------------------
 // C14 — synthesised zero values
 
 //@ func ident
